@@ -8,8 +8,12 @@
    Part 2 (generic in the tables): `tbl_decode` on a database group whose table obligations hold (C08's
    `group_ok`, C01's `def_ok`) is `spec_decode` of the definition `spec_select` picks.
    Part 3: the two composed (`e2e_single_frame_tables`); the per-run instance for the tables regenerated from
-   /repo is tools/templates/OblE2E.v (theorem E2E_single_frame). *)
-From NV Require Import Base Bits Defn PyNum Fields Dispatch DispatchProofs Template Spec SpecProofs
+   /repo is tools/templates/OblE2E.v (theorem E2E_single_frame).
+   Parts 2 and 3 are proved once for an ARBITRARY per-definition specification `sp : Z -> dbdef -> result msg` that
+   names the definition's PGN and id in what it returns (`spec_head`); the statements about `spec_decode` (fixed-layout
+   definitions) and about `spec_decode_var` (every definition of the class var_def: variable-length strings, fields
+   without BitOffset, BitLengthField, INDIRECT_LOOKUP) are its two instances (`*_of` = generic). *)
+From NV Require Import Base Bits Defn PyNum Fields Dispatch DispatchProofs Template Spec SpecProofs SpecVar SpecVarProofs
                        Header HeaderProofs PyText Wire WireProofs DecoderCtl EndToEnd.
 
 (* the configuration of NMEA2000Decoder() — no filter, no manufacturer list, no network map *)
@@ -218,12 +222,31 @@ End Generic.
 (* ====================================================================== *)
 (* Part 2 — the decode function found in the tables is the specification   *)
 (* ====================================================================== *)
+(* a per-definition specification: payload integer, database definition -> the message or the exception *)
+Definition spec_fn := Z -> dbdef -> result Fields.msg.
+(* ... whose messages carry the definition's PGN and id *)
+Definition spec_head (sp : spec_fn) : Prop :=
+  forall p d m, sp p d = Ok m -> Fields.m_pgn m = Defn.d_pgn d /\ Fields.m_id m = Defn.d_id d.
+(* what the decode function of a definition returns, as the control layer sees it *)
+Definition spec_dmsg_of (sp : spec_fn) (p : Z) (d : dbdef) : result (option dmsg) :=
+  do m <- sp p d; Ok (Some (to_dmsg m)).
+
 Lemma spec_decode_head L LB p d m : spec_decode L LB p d = Ok m ->
   Fields.m_pgn m = Defn.d_pgn d /\ Fields.m_id m = Defn.d_id d.
 Proof.
   unfold spec_decode. destruct (spec_fields L LB p (Defn.d_fields d)); cbn [bind]; try discriminate.
   intros E. inversion E. split; reflexivity.
 Qed.
+Lemma spec_decode_var_head L LB LI p d m : spec_decode_var L LB LI p d = Ok m ->
+  Fields.m_pgn m = Defn.d_pgn d /\ Fields.m_id m = Defn.d_id d.
+Proof.
+  unfold spec_decode_var. destruct (spec_fields_var L LB LI p _ 0 true [] (Defn.d_fields d)); cbn [bind]; try discriminate.
+  intros E. inversion E. split; reflexivity.
+Qed.
+Lemma spec_head_fixed L LB : spec_head (spec_decode L LB).
+Proof. intros p d m. apply spec_decode_head. Qed.
+Lemma spec_head_var L LB LI : spec_head (spec_decode_var L LB LI).
+Proof. intros p d m. apply spec_decode_var_head. Qed.
 
 Lemma spec_select_in g p d : spec_select g p = Some d -> In d g.
 Proof.
@@ -278,33 +301,49 @@ Section Tables.
   Qed.
 
   (* ... and of the C01 table obligation: the specification of the selected definition *)
+  Theorem tbl_decode_is_spec_of (sp : spec_fn) g d p :
+    group_ok code_disp code_ids g = true -> in_scope g = true ->
+    spec_select g p = Some d -> In d (bound_defs g) -> Defn.d_pgn d = group_pgn g ->
+    (exists cd, find_fname (fname_of g d) code_dec = Some cd /\
+                forall q, run_ddef L LB LI q cd = sp q d) ->
+    tbl_decode code_dec code_disp L LB LI (group_pgn g) p = spec_dmsg_of sp p d.
+  Proof.
+    intros G Sc S B Pg (cd & Fd & Sp). rewrite (tbl_decode_group g p G Sc). unfold fname_of in Fd.
+    unfold spec_dmsg_of. destruct (is_dispatched g).
+    - rewrite S. unfold run_fn. rewrite Fd, Sp. reflexivity.
+    - rewrite Pg in Fd. rewrite Fd, Sp. reflexivity.
+  Qed.
+
   Theorem tbl_decode_is_spec Ls LBs g d p :
     group_ok code_disp code_ids g = true -> in_scope g = true ->
     spec_select g p = Some d -> In d (bound_defs g) -> Defn.d_pgn d = group_pgn g ->
     (exists cd, find_fname (fname_of g d) code_dec = Some cd /\
                 forall q, run_ddef L LB LI q cd = spec_decode Ls LBs q d) ->
     tbl_decode code_dec code_disp L LB LI (group_pgn g) p = spec_dmsg Ls LBs p d.
-  Proof.
-    intros G Sc S B Pg (cd & Fd & Sp). rewrite (tbl_decode_group g p G Sc). unfold fname_of in Fd.
-    destruct (is_dispatched g).
-    - rewrite S. unfold run_fn. rewrite Fd, Sp. reflexivity.
-    - rewrite Pg in Fd. rewrite Fd, Sp. reflexivity.
-  Qed.
+  Proof. exact (tbl_decode_is_spec_of (spec_decode Ls LBs) g d p). Qed.
 
   (* a PGN without dispatcher: decode_pgn_<PGN> is the function of the bound definition, whatever the payload
      (this includes the single definitions that carry match fields, which are outside C08: nothing to select) *)
+  Theorem tbl_decode_undispatched_of (sp : spec_fn) g d p :
+    group_ok code_disp code_ids g = true -> is_dispatched g = false ->
+    In d (bound_defs g) -> Defn.d_pgn d = group_pgn g ->
+    (exists cd, find_fname (fname_of g d) code_dec = Some cd /\
+                forall q, run_ddef L LB LI q cd = sp q d) ->
+    tbl_decode code_dec code_disp L LB LI (group_pgn g) p = spec_dmsg_of sp p d.
+  Proof.
+    unfold group_ok, tbl_decode. intros H D B Pg (cd & Fd & Sp).
+    apply andb_true_iff in H. destruct H as [_ H]. rewrite D in H.
+    destruct (find_disp code_disp (group_pgn g)); [discriminate|].
+    unfold fname_of in Fd. rewrite D, Pg in Fd. unfold spec_dmsg_of. rewrite Fd, Sp. reflexivity.
+  Qed.
+
   Theorem tbl_decode_undispatched Ls LBs g d p :
     group_ok code_disp code_ids g = true -> is_dispatched g = false ->
     In d (bound_defs g) -> Defn.d_pgn d = group_pgn g ->
     (exists cd, find_fname (fname_of g d) code_dec = Some cd /\
                 forall q, run_ddef L LB LI q cd = spec_decode Ls LBs q d) ->
     tbl_decode code_dec code_disp L LB LI (group_pgn g) p = spec_dmsg Ls LBs p d.
-  Proof.
-    unfold group_ok, tbl_decode. intros H D B Pg (cd & Fd & Sp).
-    apply andb_true_iff in H. destruct H as [_ H]. rewrite D in H.
-    destruct (find_disp code_disp (group_pgn g)); [discriminate|].
-    unfold fname_of in Fd. rewrite D, Pg in Fd. rewrite Fd, Sp. reflexivity.
-  Qed.
+  Proof. exact (tbl_decode_undispatched_of (spec_decode Ls LBs) g d p). Qed.
 
   (* a dispatcher that finds no definition returns None *)
   Theorem tbl_decode_none g p :
@@ -320,6 +359,14 @@ End Tables.
 (* Part 3 — composition                                                    *)
 (* ====================================================================== *)
 (* the message the caller receives for a decoded definition *)
+Definition e2e_expected_of (sp : spec_fn) (d : dbdef) (p src dst prio : Z) (i : option iso)
+  : result (option (DecoderCtl.msg * Z)) :=
+  match sp p d with
+  | Ok m => Ok (Some ({| DecoderCtl.m_pgn := Defn.d_pgn d; DecoderCtl.m_id := bytes_of_str (Defn.d_id d);
+                         m_src := src; m_dst := dst; m_iso := i; m_body := ser_msg m |}, prio))
+  | Err e => Err e
+  | Unmodelled => Unmodelled
+  end.
 Definition e2e_expected (Ls LBs : lookups) (d : dbdef) (p src dst prio : Z) (i : option iso)
   : result (option (DecoderCtl.msg * Z)) :=
   match spec_decode Ls LBs p d with
@@ -328,16 +375,37 @@ Definition e2e_expected (Ls LBs : lookups) (d : dbdef) (p src dst prio : Z) (i :
   | Err e => Err e
   | Unmodelled => Unmodelled
   end.
+(* the instances for the position-threading specification of SpecVar.v (every definition of var_def) *)
+Definition spec_dmsg_var (Ls LBs : lookups) (LIs : ilookups) : Z -> dbdef -> result (option dmsg) :=
+  spec_dmsg_of (spec_decode_var Ls LBs LIs).
+Definition e2e_expected_var (Ls LBs : lookups) (LIs : ilookups) := e2e_expected_of (spec_decode_var Ls LBs LIs).
 
+(* on fixed-layout definitions they are the statements about spec_decode *)
+Lemma e2e_expected_var_simple Ls LBs LIs d p src dst prio i : simple_def d = true ->
+  e2e_expected_var Ls LBs LIs d p src dst prio i = e2e_expected Ls LBs d p src dst prio i.
+Proof.
+  intros S. unfold e2e_expected_var, e2e_expected_of, e2e_expected.
+  rewrite (spec_decode_var_simple Ls LBs LIs p d S). reflexivity.
+Qed.
+Lemma spec_dmsg_var_simple Ls LBs LIs p d : simple_def d = true ->
+  spec_dmsg_var Ls LBs LIs p d = spec_dmsg Ls LBs p d.
+Proof.
+  intros S. unfold spec_dmsg_var, spec_dmsg_of, spec_dmsg. rewrite (spec_decode_var_simple Ls LBs LIs p d S). reflexivity.
+Qed.
+
+Lemma lift_spec_of (sp : spec_fn) d p src dst prio i : spec_head sp ->
+  ascii (bytes_of_str (Defn.d_id d)) = true ->
+  with_prio prio (lift src dst i (spec_dmsg_of sp p d)) = e2e_expected_of sp d p src dst prio i.
+Proof.
+  intros Hd A. unfold spec_dmsg_of, e2e_expected_of.
+  destruct (sp p d) as [m| |] eqn:E; cbn [bind lift with_prio]; try reflexivity.
+  destruct (Hd _ _ _ E) as [E1 E2].
+  cbn [to_dmsg d_id d_pgn d_body]. rewrite E2, A, E1. reflexivity.
+Qed.
 Lemma lift_spec Ls LBs d p src dst prio i :
   ascii (bytes_of_str (Defn.d_id d)) = true ->
   with_prio prio (lift src dst i (spec_dmsg Ls LBs p d)) = e2e_expected Ls LBs d p src dst prio i.
-Proof.
-  intros A. unfold spec_dmsg, e2e_expected.
-  destruct (spec_decode Ls LBs p d) as [m| |] eqn:E; cbn [bind lift with_prio]; try reflexivity.
-  destruct (spec_decode_head _ _ _ _ _ E) as [E1 E2].
-  cbn [to_dmsg d_id d_pgn d_body]. rewrite E2, A, E1. reflexivity.
-Qed.
+Proof. exact (lift_spec_of (spec_decode Ls LBs) d p src dst prio i (spec_head_fixed Ls LBs)). Qed.
 
 Section Composition.
   Variable code_dec : list (fname * ddef).
@@ -349,6 +417,25 @@ Section Composition.
   Variable ts_ok : Z -> list Z -> bool.
 
   (* core: the decode function found for the PGN is the specification of definition d on this payload *)
+  Lemma e2e_single_frame_core_of (sp : spec_fn) d st i pgn prio src dst data comb :
+    spec_head sp ->
+    tbl_decode code_dec code_disp L LB LI pgn (le_int data) = spec_dmsg_of sp (le_int data) d ->
+    Defn.d_pgn d = pgn -> ascii (bytes_of_str (Defn.d_id d)) = true ->
+    parse_with ts_ok (e_fmt i) (e_data i) = Ok (Some (pgn, prio, src, dst, rev data, comb)) ->
+    pgn <> CLAIM ->
+    (comb = true \/ tbl_is_fast code_fast pgn = Ok (Some false)) ->
+    (forall n, zlookup src (srcmap st) = Some n -> mfr_modelled n = true) ->
+    e2e_step code_dec code_disp code_fast L LB LI ts_ok cfg0 st i
+    = (st, e2e_expected_of sp d (le_int data) src dst prio (zlookup src (srcmap st))).
+  Proof.
+    intros Hd T Pg A P Hp Hf Hi. unfold e2e_step.
+    rewrite (e2e_single_of_parse _ _ ts_ok st i pgn prio src dst data comb P Hp Hi Hf).
+    - rewrite T. rewrite (lift_spec_of sp) by assumption. reflexivity.
+    - intros dm. rewrite T. unfold spec_dmsg_of.
+      destruct (sp (le_int data) d) as [m| |] eqn:E; cbn [bind]; try discriminate.
+      intros X. inversion X. cbn [to_dmsg d_pgn].
+      destruct (Hd _ _ _ E) as [E1 _]. rewrite E1, Pg. exact Hp.
+  Qed.
   Lemma e2e_single_frame_core Ls LBs d st i pgn prio src dst data comb :
     tbl_decode code_dec code_disp L LB LI pgn (le_int data) = spec_dmsg Ls LBs (le_int data) d ->
     Defn.d_pgn d = pgn -> ascii (bytes_of_str (Defn.d_id d)) = true ->
@@ -358,17 +445,27 @@ Section Composition.
     (forall n, zlookup src (srcmap st) = Some n -> mfr_modelled n = true) ->
     e2e_step code_dec code_disp code_fast L LB LI ts_ok cfg0 st i
     = (st, e2e_expected Ls LBs d (le_int data) src dst prio (zlookup src (srcmap st))).
-  Proof.
-    intros T Pg A P Hp Hf Hi. unfold e2e_step.
-    rewrite (e2e_single_of_parse _ _ ts_ok st i pgn prio src dst data comb P Hp Hi Hf).
-    - rewrite T. rewrite lift_spec by exact A. reflexivity.
-    - intros dm. rewrite T. unfold spec_dmsg.
-      destruct (spec_decode Ls LBs (le_int data) d) as [m| |] eqn:E; cbn [bind]; try discriminate.
-      intros X. inversion X. cbn [to_dmsg d_pgn].
-      destruct (spec_decode_head _ _ _ _ _ E) as [E1 _]. rewrite E1, Pg. exact Hp.
-  Qed.
+  Proof. exact (e2e_single_frame_core_of (spec_decode Ls LBs) d st i pgn prio src dst data comb (spec_head_fixed Ls LBs)). Qed.
 
   (* END TO END on given tables: hypotheses are the two table obligations for the group of the PGN *)
+  Theorem e2e_single_frame_tables_of (sp : spec_fn) g d st i pgn prio src dst data comb :
+    spec_head sp ->
+    group_ok code_disp code_ids g = true -> in_scope g = true ->
+    In d (bound_defs g) -> Defn.d_pgn d = group_pgn g -> ascii (bytes_of_str (Defn.d_id d)) = true ->
+    (exists cd, find_fname (fname_of g d) code_dec = Some cd /\
+                forall q, run_ddef L LB LI q cd = sp q d) ->
+    parse_with ts_ok (e_fmt i) (e_data i) = Ok (Some (pgn, prio, src, dst, rev data, comb)) ->
+    pgn = group_pgn g -> pgn <> CLAIM ->
+    (comb = true \/ tbl_is_fast code_fast pgn = Ok (Some false)) ->
+    (forall n, zlookup src (srcmap st) = Some n -> mfr_modelled n = true) ->
+    spec_select g (le_int data) = Some d ->
+    e2e_step code_dec code_disp code_fast L LB LI ts_ok cfg0 st i
+    = (st, e2e_expected_of sp d (le_int data) src dst prio (zlookup src (srcmap st))).
+  Proof.
+    intros Hd G Sc B Pg A C P Ep Hp Hf Hi S.
+    apply (e2e_single_frame_core_of sp d st i pgn prio src dst data comb); try assumption; [|congruence].
+    rewrite Ep. apply (tbl_decode_is_spec_of code_dec code_disp code_ids L LB LI sp g d); assumption.
+  Qed.
   Theorem e2e_single_frame_tables Ls LBs g d st i pgn prio src dst data comb :
     group_ok code_disp code_ids g = true -> in_scope g = true ->
     In d (bound_defs g) -> Defn.d_pgn d = group_pgn g -> ascii (bytes_of_str (Defn.d_id d)) = true ->
@@ -381,13 +478,26 @@ Section Composition.
     spec_select g (le_int data) = Some d ->
     e2e_step code_dec code_disp code_fast L LB LI ts_ok cfg0 st i
     = (st, e2e_expected Ls LBs d (le_int data) src dst prio (zlookup src (srcmap st))).
-  Proof.
-    intros G Sc B Pg A C P Ep Hp Hf Hi S.
-    apply (e2e_single_frame_core Ls LBs d st i pgn prio src dst data comb); try assumption; [|congruence].
-    rewrite Ep. apply (tbl_decode_is_spec code_dec code_disp code_ids L LB LI Ls LBs g d); assumption.
-  Qed.
+  Proof. exact (e2e_single_frame_tables_of (spec_decode Ls LBs) g d st i pgn prio src dst data comb (spec_head_fixed Ls LBs)). Qed.
 
   (* the same for a PGN without dispatcher: the bound definition, for every payload *)
+  Theorem e2e_single_frame_tables_undispatched_of (sp : spec_fn) g d st i pgn prio src dst data comb :
+    spec_head sp ->
+    group_ok code_disp code_ids g = true -> is_dispatched g = false ->
+    In d (bound_defs g) -> Defn.d_pgn d = group_pgn g -> ascii (bytes_of_str (Defn.d_id d)) = true ->
+    (exists cd, find_fname (fname_of g d) code_dec = Some cd /\
+                forall q, run_ddef L LB LI q cd = sp q d) ->
+    parse_with ts_ok (e_fmt i) (e_data i) = Ok (Some (pgn, prio, src, dst, rev data, comb)) ->
+    pgn = group_pgn g -> pgn <> CLAIM ->
+    (comb = true \/ tbl_is_fast code_fast pgn = Ok (Some false)) ->
+    (forall n, zlookup src (srcmap st) = Some n -> mfr_modelled n = true) ->
+    e2e_step code_dec code_disp code_fast L LB LI ts_ok cfg0 st i
+    = (st, e2e_expected_of sp d (le_int data) src dst prio (zlookup src (srcmap st))).
+  Proof.
+    intros Hd G D B Pg A C P Ep Hp Hf Hi.
+    apply (e2e_single_frame_core_of sp d st i pgn prio src dst data comb); try assumption; [|congruence].
+    rewrite Ep. apply (tbl_decode_undispatched_of code_dec code_disp code_ids L LB LI sp g d); assumption.
+  Qed.
   Theorem e2e_single_frame_tables_undispatched Ls LBs g d st i pgn prio src dst data comb :
     group_ok code_disp code_ids g = true -> is_dispatched g = false ->
     In d (bound_defs g) -> Defn.d_pgn d = group_pgn g -> ascii (bytes_of_str (Defn.d_id d)) = true ->
@@ -400,9 +510,7 @@ Section Composition.
     e2e_step code_dec code_disp code_fast L LB LI ts_ok cfg0 st i
     = (st, e2e_expected Ls LBs d (le_int data) src dst prio (zlookup src (srcmap st))).
   Proof.
-    intros G D B Pg A C P Ep Hp Hf Hi.
-    apply (e2e_single_frame_core Ls LBs d st i pgn prio src dst data comb); try assumption; [|congruence].
-    rewrite Ep. apply (tbl_decode_undispatched code_dec code_disp code_ids L LB LI Ls LBs g d); assumption.
+    exact (e2e_single_frame_tables_undispatched_of (spec_decode Ls LBs) g d st i pgn prio src dst data comb (spec_head_fixed Ls LBs)).
   Qed.
 
   (* a dispatcher PGN whose payload matches no definition and has no fallback: nothing is returned *)
@@ -424,6 +532,29 @@ Section Composition.
   Qed.
   (* the address claim on given tables: PGN 60928 has no dispatcher; its bound definition d decodes the NAME, the
      identity is read from the decoded fields, the source map is updated *)
+  Theorem e2e_claim_tables_of (sp : spec_fn) g d st i prio src dst data comb :
+    spec_head sp ->
+    group_ok code_disp code_ids g = true -> is_dispatched g = false -> group_pgn g = CLAIM ->
+    In d (bound_defs g) -> Defn.d_pgn d = group_pgn g ->
+    (exists cd, find_fname (fname_of g d) code_dec = Some cd /\
+                forall q, run_ddef L LB LI q cd = sp q d) ->
+    parse_with ts_ok (e_fmt i) (e_data i) = Ok (Some (CLAIM, prio, src, dst, rev data, comb)) ->
+    (comb = true \/ tbl_is_fast code_fast CLAIM = Ok (Some false)) ->
+    e2e_step code_dec code_disp code_fast L LB LI ts_ok cfg0 st i
+    = let sr := claim_result st {| c_pgn := CLAIM; c_src := src; c_dst := dst; c_data := data; c_win := e_win i |}
+                             (spec_dmsg_of sp (le_int data) d) in
+      (fst sr, with_prio prio (snd sr)).
+  Proof.
+    intros Hd G D Eg B Pg C P Hf. unfold e2e_step.
+    assert (T : tbl_decode code_dec code_disp L LB LI CLAIM (le_int data) = spec_dmsg_of sp (le_int data) d).
+    { rewrite <- Eg. apply (tbl_decode_undispatched_of code_dec code_disp code_ids L LB LI sp g d); assumption. }
+    rewrite (e2e_claim_of_parse _ _ ts_ok st i prio src dst data comb P Hf).
+    - rewrite T. reflexivity.
+    - intros dm. rewrite T. unfold spec_dmsg_of.
+      destruct (sp (le_int data) d) as [m| |] eqn:E; cbn [bind]; try discriminate.
+      intros X. inversion X. cbn [to_dmsg d_pgn].
+      destruct (Hd _ _ _ E) as [E1 _]. rewrite E1, Pg. exact Eg.
+  Qed.
   Theorem e2e_claim_tables Ls LBs g d st i prio src dst data comb :
     group_ok code_disp code_ids g = true -> is_dispatched g = false -> group_pgn g = CLAIM ->
     In d (bound_defs g) -> Defn.d_pgn d = group_pgn g ->
@@ -435,15 +566,5 @@ Section Composition.
     = let sr := claim_result st {| c_pgn := CLAIM; c_src := src; c_dst := dst; c_data := data; c_win := e_win i |}
                              (spec_dmsg Ls LBs (le_int data) d) in
       (fst sr, with_prio prio (snd sr)).
-  Proof.
-    intros G D Eg B Pg C P Hf. unfold e2e_step.
-    assert (T : tbl_decode code_dec code_disp L LB LI CLAIM (le_int data) = spec_dmsg Ls LBs (le_int data) d).
-    { rewrite <- Eg. apply (tbl_decode_undispatched code_dec code_disp code_ids L LB LI Ls LBs g d); assumption. }
-    rewrite (e2e_claim_of_parse _ _ ts_ok st i prio src dst data comb P Hf).
-    - rewrite T. reflexivity.
-    - intros dm. rewrite T. unfold spec_dmsg.
-      destruct (spec_decode Ls LBs (le_int data) d) as [m| |] eqn:E; cbn [bind]; try discriminate.
-      intros X. inversion X. cbn [to_dmsg d_pgn].
-      destruct (spec_decode_head _ _ _ _ _ E) as [E1 _]. rewrite E1, Pg. exact Eg.
-  Qed.
+  Proof. exact (e2e_claim_tables_of (spec_decode Ls LBs) g d st i prio src dst data comb (spec_head_fixed Ls LBs)). Qed.
 End Composition.
